@@ -540,6 +540,7 @@ int main(int argc, char *argv[])
       util_context.memory.high_address);
   }
     else
+  if (cpu_name != NULL)
   {
     util_context.set_cpu_by_name(cpu_name);
   }
